@@ -38,7 +38,10 @@ func modsFor(path string, n *node) []mod {
 		kinds = []string{"appear-file", "appear-dir", "appear-link"}
 	case n.Kind == "f":
 		// size / mtime / content+mtime / permission bits / executability / identity / type
-		kinds = []string{"append", "touch", "rewrite", "chmod", "chmodx", "newinode", "to-dir", "to-link"}
+		// "touch-ns", "touch-1ns" and "rewrite-ns" keep the new modification time
+		// inside the SAME SECOND as the scanned one (+250/500 ms, -1 ns, +100/200 ms):
+		// a difference at any granularity the filesystem stores must protect the file.
+		kinds = []string{"append", "touch", "touch-ns", "touch-1ns", "rewrite", "rewrite-ns", "chmod", "chmodx", "newinode", "to-dir", "to-link"}
 	case n.Kind == "l":
 		// other target / one byte longer / only the last byte differs / cut to
 		// the first 128 bytes (readlink buffer boundary) / type
@@ -83,7 +86,16 @@ func applyMod(root string, m mod, phase int, keep string) error {
 		return os.Chtimes(p, baseTime, baseTime)
 	case "touch": // only the modification time differs
 		return os.Chtimes(p, later, later)
-	case "rewrite": // same size, other bytes, new modification time
+	case "touch-ns": // only the sub-second part of the modification time differs
+		t := baseTime.Add(time.Duration(phase) * 250 * time.Millisecond)
+		return os.Chtimes(p, t, t)
+	case "touch-1ns": // the modification time differs by one (two) nanosecond(s)
+		t := baseTime.Add(-time.Duration(phase))
+		return os.Chtimes(p, t, t)
+	case "rewrite", "rewrite-ns": // same size, other bytes, new modification time (-ns: within the same second)
+		if m.Kind == "rewrite-ns" {
+			later = baseTime.Add(time.Duration(phase) * 100 * time.Millisecond)
+		}
 		b, err := os.ReadFile(p)
 		if err != nil {
 			return err
@@ -258,7 +270,7 @@ func m1KindsFor(n *node) []string {
 	case n == nil:
 		return nil
 	case n.Kind == "f":
-		return []string{"chmod", "chmodx", "touch", "rewrite", "newinode"}
+		return []string{"chmod", "chmodx", "touch", "touch-ns", "rewrite", "newinode"}
 	case n.Kind == "l":
 		return []string{"retarget", "retarget-extend", "retarget-lastbyte"}
 	}
@@ -523,7 +535,7 @@ func TestC08(t *testing.T) {
 			groups = append(groups, group{tree, p})
 		}
 	}
-	r.Rule(fmt.Sprintf("every base tree (%d, plus 7 trees whose link targets are 127/128/129/200/247 bytes long with a common prefix) x every single-change plan on every path (thorough: also two-change plans, and the trees without the bystander b) x every modification set applied between core.Scan and core.Transition: one modification, and for single-change plans every applicable pair at two different paths, from {file: append(size), touch(mtime), rewrite(same size, new mtime), chmod, chmod +-x, new inode with identical bytes/mode/mtime, ->dir, ->link; link: retarget, target extended by one byte, only the last byte changed, target cut to its first 128 bytes, ->file, ->dir; directory: new child file/dir/link, ->file, ->link; planned creation target: a file/dir/link appears} at every path inside the plan's targets; creation targets additionally under {EXDEV staging, no RENAME_NOREPLACE}. Warm-cache histories for single-change plans: two scans chained as the local endpoint chains them (scan #2 gets scan #1's cache and ignore cache; thorough: also accelerated with baseline + re-check path), separated by a metadata-only modification M1 in {chmod, chmod +-x, mtime only, same-size rewrite, new inode with same bytes; link retarget} at every file/link path in the plan's targets, in both orders (scan #1 . M1 . scan #2, and M1 . scan #1 . undo . scan #2), followed by one post-scan modification from the full list plus 'restore exactly the state scan #1 saw'. Non-trivial = the same plan without modification was applied completely and without problems (control run), so the modified object is one the plan deletes or replaces (for warm histories: the control run of the same history); distinct by (tree, plan, modifications, env, warm history)", len(trees(thorough))))
+	r.Rule(fmt.Sprintf("every base tree (%d, plus 7 trees whose link targets are 127/128/129/200/247 bytes long with a common prefix) x every single-change plan on every path (thorough: also two-change plans, and the trees without the bystander b) x every modification set applied between core.Scan and core.Transition: one modification, and for single-change plans every applicable pair at two different paths, from {file: append(size), touch(mtime +1s), mtime within the same second (+250/500 ms; -1 ns), rewrite(same size, new mtime; also with the new mtime inside the same second), chmod, chmod +-x, new inode with identical bytes/mode/mtime, ->dir, ->link; link: retarget, target extended by one byte, only the last byte changed, target cut to its first 128 bytes, ->file, ->dir; directory: new child file/dir/link, ->file, ->link; planned creation target: a file/dir/link appears} at every path inside the plan's targets; creation targets additionally under {EXDEV staging, no RENAME_NOREPLACE}. Warm-cache histories for single-change plans: two scans chained as the local endpoint chains them (scan #2 gets scan #1's cache and ignore cache; thorough: also accelerated with baseline + re-check path), separated by a metadata-only modification M1 in {chmod, chmod +-x, mtime only, same-size rewrite, new inode with same bytes; link retarget} at every file/link path in the plan's targets, in both orders (scan #1 . M1 . scan #2, and M1 . scan #1 . undo . scan #2), followed by one post-scan modification from the full list plus 'restore exactly the state scan #1 saw'. Non-trivial = the same plan without modification was applied completely and without problems (control run), so the modified object is one the plan deletes or replaces (for warm histories: the control run of the same history); distinct by (tree, plan, modifications, env, warm history)", len(trees(thorough))))
 	r.Assume("modifications are applied between the scan and the transition, never inside one operation (the documented check-to-unlink RACE windows are excluded by the property's quantifier)",
 		"every modification changes at least one of type, permission bits, size, modification time, file identity, link target or adds a directory entry; a same-size rewrite that also restores the modification time is outside the property",
 		"'reported as problems' is read as: at least one returned problem whose path is the modified path or lies below it",
@@ -617,7 +629,12 @@ func TestC08(t *testing.T) {
 						} else {
 							l.Outcome("warm-control-refused")
 						}
-						m2s := append([]mod{{q, "restore1"}}, modsFor(q, n)...)
+						m2s := []mod{{q, "restore1"}}
+						for _, m := range modsFor(q, n) {
+							if m.Kind != "touch-1ns" && m.Kind != "rewrite-ns" { // those two run in the cold histories only
+								m2s = append(m2s, m)
+							}
+						}
 						for _, m2 := range m2s {
 							c := c8case{Tree: g.tree, Plan: g.plan, Mods: []mod{m2}, Env: "plain", Warm: ws}
 							what, _, np := runC8(w, c, nil)
